@@ -302,7 +302,12 @@ pub fn check_async(sc: &Scenario, b: &BuiltAsync, ao: &AsyncOut, out: &mut Vec<V
             if got != tls {
                 let m = format!("operation #{} (wait): thread-local systems that ran: {:?}, registered: {:?}", oi, got, tls);
                 out.push(vio("C15", "wait-tl-mismatch", m.clone()));
-                out.push(vio("C12", if got.len() < tls.len() { "tl-not-run" } else { "tl-order" }, m));
+                out.push(vio("C12", if got.len() < tls.len() { "tl-not-run" } else { "tl-order" }, m.clone()));
+                if got.len() != tls.len() {
+                    // wait is where the thread-local systems of the dispatches issued since the
+                    // last wait get their run
+                    out.push(vio("C04", if got.len() < tls.len() { "tl-skipped" } else { "tl-ran-twice" }, m));
+                }
             }
             for e in &tl_events {
                 if e.task != 0 || e.worker {
@@ -342,11 +347,15 @@ pub fn check_async(sc: &Scenario, b: &BuiltAsync, ao: &AsyncOut, out: &mut Vec<V
     }
     let ndisp = sc.aops.iter().filter(|o| **o == AOp::Dispatch).count() as u64;
     if insts.len() as u64 != ndisp && n_ord > 0 {
-        out.push(vio("C15", "not-exactly-once", format!("{} dispatch operations were issued, systems ran in {} dispatch instances", ndisp, insts.len())));
+        let m = format!("{} dispatch operations were issued, systems ran in {} dispatch instances", ndisp, insts.len());
+        out.push(vio("C15", "not-exactly-once", m.clone()));
+        out.push(vio("C04", "dispatch-count", m));
     }
     for i in infos.iter().filter(|i| i.parent.is_none() && i.kind != Kind::Tl) {
         if ao.runs[i.sid] != ndisp {
-            out.push(vio("C15", "not-exactly-once", format!("system {} ran {} time(s) in {} asynchronous dispatches", i.sid, ao.runs[i.sid], ndisp)));
+            let m = format!("system {} ran {} time(s) in {} asynchronous dispatches", i.sid, ao.runs[i.sid], ndisp);
+            out.push(vio("C15", "not-exactly-once", m.clone()));
+            out.push(vio("C04", if ao.runs[i.sid] < ndisp { "skipped" } else { "ran-twice" }, m));
         }
     }
     // setup reaches everything, also when issued while a dispatch is in flight (C13)
